@@ -749,6 +749,33 @@ fn main() {
         run.bound(format!("(j) buffer reuse: {} matches of names written one after the other into one buffer (grouped by length), 3 bounds x 4 operators compiled once", calls));
         run.merge(t);
     }
+    // (k) two versions that differ in exactly one component, at every index 1..=72: k one-component
+    // tokens ('pl' = 0), then one of {alpha, beta, rc, pl, .}, then a common tail - in all ordered
+    // pairs of the differing token, with and without a revision
+    {
+        let mut t = Tally::new();
+        let xs = ["alpha", "beta", "rc", "pl", ".", "_", "pre"];
+        for k in 0..=run.pick(72, 140) {
+            for tail in ["plplpl", "", "nb2"] {
+                let vs: Vec<String> = xs.iter().map(|x| format!("1{}{}{}", "pl".repeat(k), x, tail)).collect();
+                for a in &vs {
+                    for b in &vs {
+                        t.states += 1;
+                        t.transitions += 1;
+                        let (ra, rb) = (dewey::tokenise(a, LetterWeight::Rank), dewey::tokenise(b, LetterWeight::Rank));
+                        if let Some(got) = four_verdicts(&mut t, a, b) {
+                            judge4(&run, &mut t, a, b, got, &ra, &rb, &ra, &rb);
+                        }
+                        if ra.comps != rb.comps {
+                            t.nontrivial += 1;
+                        }
+                    }
+                }
+            }
+        }
+        run.bound(format!("(k) single difference at every component index 1..={}: 7 one-component tokens x 3 tails, all ordered pairs", run.pick(72, 140) + 1));
+        run.merge(t);
+    }
     // (h) long common prefixes: two versions that agree on 15..100 leading bytes and then end in
     // different short tails (every single token, and modifier / letter / number pairs that share
     // leading letters), through the four operators and through best_match
